@@ -805,12 +805,18 @@ def field_mut_access_of(F, fn, adt_path, base="_1", depth=3, _seen=None):
 
 def short_fn(qpath):
     """readable, line-free key for a function: generic arguments removed, crate/module prefix trimmed"""
-    s = re.sub(r"::<[^<>]*(<[^<>]*>[^<>]*)*>", "", qpath)
-    m = re.match(r"^(\w+::)?<(.+?) as (.+?)>::(\w+)(.*)$", s)
+    def strip(x):
+        prev = None
+        while prev != x:
+            prev = x
+            x = re.sub(r"(::)?<[^<>]*>", "", x)
+        return x
+    m = re.match(r"^(?:\w+::)?<(.+) as (.+?)>::(\w+)(.*)$", qpath)
     if m:
-        ty = re.sub(r"<.*", "", m.group(2)).split("::")[-1]
-        tr = re.sub(r"<.*", "", m.group(3)).split("::")[-1]
-        return "%s as %s::%s%s" % (ty, tr, m.group(4), m.group(5))
-    s = re.sub(r"<impl [^>]*?(\w+)(<[^>]*>)?>", lambda m_: m_.group(1), s)
+        ty = strip(m.group(1)).split("::")[-1]
+        tr = strip(m.group(2)).split("::")[-1]
+        return "%s as %s::%s%s" % (ty, tr, m.group(3), m.group(4))
+    s = re.sub(r"<impl ([^<>]|<[^<>]*>)*?(\w+)(<[^<>]*>)?>", lambda m_: m_.group(2), qpath)
+    s = strip(s)
     parts = s.split("::")
     return "::".join(parts[-2:]) if len(parts) > 2 else s
